@@ -429,6 +429,7 @@ def snap_ike(sa):
         'request': id(sa.request) if sa.request is not None else None,
         'new_ike': id(sa.new_ike_sa) if sa.new_ike_sa is not None else None,
         'has_keys': sa.ike_sa_keyring is not None,
+        'peer_addr': str(sa.peer_addr), 'my_addr': str(sa.my_addr),
     }
 
 
